@@ -68,6 +68,9 @@ def TS.req (s : TS) : Except Err TS :=
 /-- `cast_current_token_to_ucase` -/
 def TS.castU (s : TS) : TS := { s with cur := s.cur.map String.toUpper }
 
+/-- `NewickReader._is_punctuation`: the current token is the structural character `ch`; a quoted token is a label -/
+def TS.isP (s : TS) (ch : String) : Bool := s.cur == some ch && !s.quoted
+
 /-- `pull_captured_comments` (None and [] are not distinguished by any caller) -/
 def TS.pull (s : TS) : List String × TS := (s.cap, { s with cap := [] })
 def TS.clear (s : TS) : TS := { s with cap := [] }
@@ -198,7 +201,7 @@ def blankNode (coms : List String) : Node := .mk none none none coms []
 
 /-- the inner `while current_token == ","` of the child loop: one blank node per extra comma -/
 def commaLoop (s : PS) (kids : List Node) : Except Err (PS × List Node) :=
-  if s.ts.cur == some "," then
+  if s.ts.isP "," then
     let c := s.ts.cap
     let ts1 := s.ts.clear
     match h : ts1.req with
@@ -226,7 +229,7 @@ def tailLoop (cfg : Cfg) (isInternal : Bool) (kids : List Node) (s : PS) (coms :
   match hc : ts0.cur with
   | none => .error .parse
   | some tok =>
-    if tok == ":" then
+    if tok == ":" && !ts0.quoted then
       match h1 : ts0.req with
       | .error e => .error e
       | .ok ts1 =>
@@ -234,12 +237,12 @@ def tailLoop (cfg : Cfg) (isInternal : Bool) (kids : List Node) (s : PS) (coms :
         match h2 : ts1.req with
         | .error e => .error e
         | .ok ts2 => tailLoop cfg isInternal kids { s with ts := ts2 } coms taxon label len labelParsed
-    else if tok == ")" || tok == "," then
+    else if (tok == ")" || tok == ",") && !ts0.quoted then
       .ok (.mk taxon label len coms kids, s)
-    else if tok == ";" then
+    else if tok == ";" && !ts0.quoted then
       let s := { s with ts := ts0.next, complete := true }
       if s.level != 0 then .error .parse else .ok (.mk taxon label len coms kids, s)
-    else if tok == "(" then .error .parse
+    else if tok == "(" && !ts0.quoted then .error .parse
     else if labelParsed then .error .parse
     else
       if suppressTaxon cfg isInternal then
@@ -267,7 +270,7 @@ def parseNode (cfg : Cfg) (s : PS) (isInternal : Option Bool) (pre : List String
   let c0 := s.ts.cap
   let ts0 := s.ts.clear
   let s0 := { s with ts := ts0 }
-  if ts0.cur == some "(" then
+  if ts0.isP "(" then
     match h : ts0.req with
     | .error e => .error e
     | .ok ts1 =>
@@ -288,7 +291,7 @@ decreasing_by
 
 /-- the `for count in it.count()` loop over the children of an opened parenthesis -/
 def childLoop (cfg : Cfg) (s : PS) (count : Nat) (created : Bool) (kids : List Node) : Except Err (PS × List Node) :=
-  if s.ts.cur == some "," then
+  if s.ts.isP "," then
     let (s1, kids1) :=
       if !created then
         let c := s.ts.cap
@@ -302,20 +305,20 @@ def childLoop (cfg : Cfg) (s : PS) (count : Nat) (created : Bool) (kids : List N
       | .error e => .error e
       | .ok (s3, kids3) =>
         let (s4, kids4, created4) :=
-          if !created && s3.ts.cur == some ")" then
+          if s3.ts.isP ")" then     -- ',' directly before ')' designates a trailing blank node
             let c := s3.ts.cap
             let ts' := s3.ts.clear
             ({ s3 with ts := ts' }, kids3 ++ [blankNode c], true)
           else (s3, kids3, created)
         if h : s4.ts.rest.length < s.ts.rest.length then childLoop cfg s4 (count + 1) created4 kids4
         else .error .stuck
-  else if s.ts.cur == some ")" then
+  else if s.ts.isP ")" then
     let kids1 := if count == 0 then kids ++ [blankNode []] else kids
     match s.ts.req with
     | .error e => .error e
     | .ok ts1 => .ok ({ s with ts := ts1, level := s.level - 1 }, kids1)
   else
-    let isNew := s.ts.cur == some "("
+    let isNew := s.ts.isP "("
     let lvl := if isNew then s.level + 1 else s.level
     match parseNode cfg { s with ts := s.ts.clear, level := lvl } (some isNew) s.ts.cap with
     | .error e => .error e
@@ -356,7 +359,7 @@ def processTreeComments (cfg : Cfg) (coms : List String) : Option Bool × Option
 
 /-- leading `while (current_token == ";" or current_token is None) and not is_eof()` of `_parse_tree_statement` -/
 def skipLeadingSemis (ts : TS) (coms : List String) : Except Err (TS × List String) :=
-  if (ts.cur == some ";" || ts.cur == none) && !ts.eof then
+  if (ts.isP ";" || ts.cur == none) && !ts.eof then
     match h : ts.req with
     | .error e => .error e
     | .ok ts1 =>
@@ -371,8 +374,8 @@ decreasing_by
 
 /-- trailing `while current_token == ";" and not is_eof()` of `_parse_tree_statement` -/
 def skipTrailingSemis (ts : TS) : TS :=
-  if h : ts.cur == some ";" && !ts.eof && ts.rest ≠ [] then skipTrailingSemis ts.clear.next
-  else if ts.cur == some ";" && !ts.eof then ts.clear.next
+  if h : ts.isP ";" && !ts.eof && ts.rest ≠ [] then skipTrailingSemis ts.clear.next
+  else if ts.isP ";" && !ts.eof then ts.clear.next
   else ts
 termination_by ts.rest.length
 decreasing_by
@@ -390,7 +393,7 @@ def newickStmt (cfg : Cfg) (ts : TS) (ns : List String) (mp : Mapper) :
   | .ok (ts1, treeComs) =>
     if ts1.eof then .ok (none, ts1, ns, mp)
     else
-      let level : Int := if ts1.cur == some "(" then 1 else 0
+      let level : Int := if ts1.isP "(" then 1 else 0
       let (rooted, weight, coms) := processTreeComments cfg treeComs
       match parseNode cfg { ts := ts1, ns := ns, mp := mp, seen := [], level := level, complete := false } none [] with
       | .error e => .error e
@@ -556,7 +559,7 @@ def taxlabelsLoop (cfg : Cfg) (ts : TS) (ns : List String) (ntax : Option Nat) :
   match ts.cur with
   | none => .error .parse
   | some label =>
-    if label == ";" then .ok (ns, ts)
+    if label == ";" && !ts.quoted then .ok (ns, ts)
     else if h : ts.rest = [] then .error .parse
     else
       match nsFind label ns with
